@@ -41,7 +41,9 @@ PROP = Prop(
                # 'no password accepted for training ...': what read_password yields has passed check_valid after $HEX[] decoding
                (tio.TFIC + '.read_password#generator', install_trainer_side),
                # the guesser's OMEN loader returns the n-grams of IP.level / CP.level unchanged, grouped by level (and prefix)
-               (oml.IO + ':_load_ngrams#ip', None), (oml.IO + ':_load_ngrams#cp', None)],
+               (oml.IO + ':_load_ngrams#ip', None), (oml.IO + ':_load_ngrams#cp', None),
+               # ... and so does the scorer's OMEN loader
+               (oml.SC + '._load_omen', None)],
     lemmas=lambda: gld.groups_desc.lemmas() + oml.lemmas(),
     setup=install,
     effects=encoding_frame,
